@@ -1044,6 +1044,86 @@ def _preorder(node):
         yield from _preorder(c)
 
 
+def fingerprint(fn):
+    """Shape of a function that does not depend on its own name (docstring and decorators' text excluded)."""
+    import hashlib
+    body = _strip_doc(fn.body) or fn.body
+    mod = ast.Module(body=[copy.deepcopy(b) for b in body], type_ignores=[])
+    for n in ast.walk(mod):
+        if isinstance(n, ast.Name) and n.id == fn.name:
+            n.id = "_SELF_"
+        elif isinstance(n, ast.Attribute) and n.attr == fn.name:
+            n.attr = "_SELF_"
+    txt = ast.dump(fn.args) + "|" + ast.dump(mod) + "|" + str(len(fn.decorator_list))
+    return hashlib.sha1(txt.encode()).hexdigest()[:16]
+
+
+def undo_function_renames(trees, ref=None, stats=None):
+    """Before anything else: a function of the reference tree that vanished while a *new* function with exactly the same
+    body (same parameters, same place: module or class) appeared was renamed.  The new name is replaced by the reference
+    name everywhere in the package (names, attributes, import aliases) -- provided the reference name occurs nowhere any
+    more, so that the replacement is a consistent renaming of one identifier.  trees: {module: ast.Module}."""
+    ref = reference() if ref is None else ref
+    fps = ref.get("fingerprints", {})
+    inv = ref.get("inventory", {})
+    if not fps:
+        return {}
+    idents = set()
+    for t in trees.values():
+        for n in ast.walk(t):
+            if isinstance(n, ast.Name):
+                idents.add(n.id)
+            elif isinstance(n, ast.Attribute):
+                idents.add(n.attr)
+            elif isinstance(n, ast.arg):
+                idents.add(n.arg)
+            elif isinstance(n, ast.alias):
+                idents.add(n.name.split(".")[-1])
+                if n.asname:
+                    idents.add(n.asname)
+            elif isinstance(n, FUNC + (ast.ClassDef,)):
+                idents.add(n.name)
+    renames = {}
+    for m, tree in trees.items():
+        known = set(inv.get(m, []))
+        if not known:
+            continue
+        cur = dict(top_functions(tree, m))
+        new = {q: f for q, f in cur.items() if q not in known}
+        gone = [q for q in known if q not in cur]
+        for v in gone:
+            vname = v.rsplit(".", 1)[1].split("#")[0]
+            if vname in idents or v not in fps:
+                continue
+            cands = [q for q, f in new.items() if q.rsplit(".", 1)[0] == v.rsplit(".", 1)[0] and fingerprint(f) == fps[v]]
+            if len(cands) == 1:
+                nname = cands[0].rsplit(".", 1)[1]
+                if nname not in renames and vname not in renames.values() and not (nname.startswith("__") and nname.endswith("__")):
+                    renames[nname] = vname
+                    del new[cands[0]]
+    if not renames:
+        return {}
+    for t in trees.values():
+        for n in ast.walk(t):
+            if isinstance(n, ast.Name) and n.id in renames:
+                n.id = renames[n.id]
+            elif isinstance(n, ast.Attribute) and n.attr in renames:
+                n.attr = renames[n.attr]
+            elif isinstance(n, FUNC) and n.name in renames:
+                n.name = renames[n.name]
+            elif isinstance(n, ast.alias):
+                last = n.name.split(".")[-1]
+                if last in renames:
+                    n.name = ".".join(n.name.split(".")[:-1] + [renames[last]])
+                if n.asname in renames:
+                    n.asname = renames[n.asname]
+            elif isinstance(n, ast.keyword) and n.arg in renames:
+                pass        # a keyword argument is a parameter name, not a function
+    if stats is not None:
+        stats["functions-renamed-back"] = [f"{a}->{b}" for a, b in sorted(renames.items())]
+    return renames
+
+
 def build_reference(root):
     """Inventory and role tables of the tree under `root` (run by tools_reference.py on the reference tree only)."""
     pkg = os.path.join(root, "ptera")
@@ -1054,7 +1134,7 @@ def build_reference(root):
             with open(os.path.join(pkg, fn), encoding="utf8") as f:
                 trees[m] = ast.parse(f.read())
             inv[m] = sorted(q for q, _ in top_functions(trees[m], m))
-    ref = {"inventory": inv, "roles": {}}
+    ref = {"inventory": inv, "roles": {}, "fingerprints": {q: fingerprint(f) for m, tree in trees.items() for q, f in top_functions(tree, m)}}
     roles = {}
     for m, tree in trees.items():
         normalise(tree, m, ref=ref)
